@@ -190,6 +190,9 @@ def step (r : Rep) : RepOp → Rep × RepOut
     -- is still a member of the source's chain (sync.isRevisionCountAndChainSame refuses it otherwise and
     -- nothing is promoted): the harness never lets such a replica rejoin
     if stale && !r.hasStash then (r, .inadmissible) else
+    -- a replica whose own rebuild was cut short is still marked as rebuilding: sync resets that mark
+    -- (checkAndResetFailedRebuild) before anything else; the harness never starts a volume from it
+    if r.rebuilding then (r, .inadmissible) else
     if stale && r.stashCkpt ≠ "" && !(r.names.any fun x => "volume-snap-" ++ x ++ ".img" = r.stashCkpt) then (r, .inadmissible) else
     -- Controller.Start opens the (closed) replica with preload and makes it RW; AddReplica then takes
     -- the automatic snapshot on every replica
@@ -222,7 +225,8 @@ def step (r : Rep) : RepOp → Rep × RepOut
           ((List.range (c.nb * c.bs)).map fun u => c.readUnit u))
   | .rbEnd =>
     if r.rb = 0 then (r, .refused) else
-    ({ r with dd := r.dd.dropHoles, isOpen := false, mode := .init, rb := 0 }, .ok)
+    ({ r with dd := r.dd.dropHoles, isOpen := false, mode := .init, rb := 0,
+              rebuilding := r.rebuilding || r.rb = 2 || r.rb = 4 }, .ok)
 
 def run (r : Rep) : List RepOp → Rep
   | []        => r
